@@ -130,7 +130,21 @@ func (s *set[ElementType]) replace(elements ds.ReadableSet[ElementType]) (applie
 	s.readableSet.mutex.Lock()
 	defer s.readableSet.mutex.Unlock()
 
-	return ds.NewSetMutations[ElementType](elements.ToSlice()...).WithDeletedElements(s.value.Replace(elements)), s.uniqueUpdateID.Next(), s.updateCallbacks.Values()
+	// only report the difference between the previous and the new elements (elements that are part of both sets
+	// were neither added nor deleted)
+	addedElements := ds.NewSet[ElementType]()
+	elements.Range(func(element ElementType) {
+		if !s.value.Has(element) {
+			addedElements.Add(element)
+		}
+	})
+
+	deletedElements := s.value.Replace(elements)
+	elements.Range(func(element ElementType) {
+		deletedElements.Delete(element)
+	})
+
+	return ds.NewSetMutations[ElementType]().WithAddedElements(addedElements).WithDeletedElements(deletedElements), s.uniqueUpdateID.Next(), s.updateCallbacks.Values()
 }
 
 // endregion ///////////////////////////////////////////////////////////////////////////////////////////////////////////
